@@ -54,6 +54,8 @@ func runChild() {
 		out = spinStress(*childSd, *childArg, *childN)
 	case "rounds":
 		out = runRounds(*childSd, *childArg, *childN)
+	case "bursts":
+		out = runBursts(*childSd, *childN)
 	default:
 		fmt.Fprintln(os.Stderr, "unknown child mode")
 		os.Exit(3)
